@@ -33,7 +33,11 @@
 //!
 //! See the MDK documentation for Android-specific setup instructions.
 
-use std::sync::{Mutex, OnceLock};
+#[cfg(feature = "verif-hooks")]
+use crate::verif_hooks::HookedMutex as Mutex;
+#[cfg(not(feature = "verif-hooks"))]
+use std::sync::Mutex;
+use std::sync::OnceLock;
 
 use keyring_core::{Entry, Error as KeyringError};
 
@@ -106,6 +110,8 @@ pub fn get_or_create_db_key(service_id: &str, db_key_id: &str) -> Result<Encrypt
     );
 
     let config = EncryptionConfig::generate()?;
+    #[cfg(feature = "verif-hooks")]
+    crate::verif_hooks::yield_point("keyring:generated");
 
     // Store the new key
     let entry = Entry::new(service_id, db_key_id).map_err(|e| {
@@ -142,6 +148,8 @@ pub fn get_or_create_db_key(service_id: &str, db_key_id: &str) -> Result<Encrypt
 /// - `Ok(None)` if no key exists for the given identifiers
 /// - `Err(...)` if the keyring is unavailable or the stored key is invalid
 pub fn get_db_key(service_id: &str, db_key_id: &str) -> Result<Option<EncryptionConfig>, Error> {
+    #[cfg(feature = "verif-hooks")]
+    crate::verif_hooks::yield_point("keyring:get");
     let entry = Entry::new(service_id, db_key_id).map_err(|e| {
         Error::Keyring(format!(
             "Failed to create keyring entry for service='{}', key='{}': {}",
